@@ -9,7 +9,7 @@ Driver domain `hsmsfsm`.
            | api.sel | api.des | api.lnk | t6.<sys>
        stype := selreq | selrsp | desreq | desrsp | lnkreq | lnkrsp | rejreq | sepreq
     -> ok <conn> dis=<0|1> ctr=<n> open=<sys>/<kind>;… | <conn> tx=<stype>/<sys>/<b2>/<b3>;… ev=<name>;… dl=<app|wait>/<sys>;… err=<ErrKind>;… | …
-    hsmsfsm race <gen|old> <schedule of a/d letters|->
+    hsmsfsm race <gen|old> <schedule of a/d letters|-|eager|lazy>
     -> ok conn=<conn> started=<0|1> rsp=<0|1> raised=<0|1> final=<0|1>
 -/
 namespace SecsModel.Drv.HsmsFsm
@@ -70,6 +70,21 @@ def showSt (s : St) : String :=
 def parseSched (s : String) : Option (List Bool) :=
   if s == "-" then some [] else s.toList.mapM (fun c => if c == 'a' then some true else if c == 'd' then some false else none)
 
+/-- the two schedules the harness can force on the real threads: `eager` = the dispatcher moves whenever it can,
+`lazy` = the accepting thread finishes first -/
+def policyRun (eager : Bool) : Nat → Race.RSt → Race.RSt
+  | 0, s => s
+  | fuel + 1, s =>
+    let dCan := s.started && s.pcD < 2
+    let aCan := !s.restA.isEmpty
+    if eager then
+      if dCan then policyRun eager fuel (Race.stepD s) else if aCan then policyRun eager fuel (Race.stepA s) else s
+    else
+      if aCan then policyRun eager fuel (Race.stepA s) else if dCan then policyRun eager fuel (Race.stepD s) else s
+
+def showRace (s : Race.RSt) : String :=
+  s!"ok conn={showConn s.conn} started={showBool s.started} rsp={showBool s.rspSent} raised={showBool s.raised} final={showBool (Race.isFinal s)}"
+
 def handle : List String → String
   | ["run", mode, ctr, defects, hist] =>
     match (if mode == "a" then some true else if mode == "p" then some false else none), parseInt ctr, defects.toList, parseHistory hist with
@@ -83,11 +98,14 @@ def handle : List String → String
       | _, _ => "bad-op"
     | _, _, _, _ => "bad-op"
   | ["race", order, sched] =>
-    match (if order == "gen" then some Gen.HsmsProto.onConnected else if order == "old" then some Race.oldOrder else none), parseSched sched with
-    | some prog, some sc =>
-      let s := Race.runSched (Race.init prog) sc
-      s!"ok conn={showConn s.conn} started={showBool s.started} rsp={showBool s.rspSent} raised={showBool s.raised} final={showBool (Race.isFinal s)}"
-    | _, _ => "bad-op"
+    match (if order == "gen" then some Gen.HsmsProto.onConnected else if order == "old" then some Race.oldOrder else none) with
+    | some prog =>
+      if sched == "eager" then showRace (policyRun true 32 (Race.init prog))
+      else if sched == "lazy" then showRace (policyRun false 32 (Race.init prog))
+      else match parseSched sched with
+        | some sc => showRace (Race.runSched (Race.init prog) sc)
+        | none => "bad-op"
+    | none => "bad-op"
   | _ => "bad-op"
 
 end SecsModel.Drv.HsmsFsm
